@@ -113,7 +113,8 @@ def _change():
     return st.one_of(
         st.fixed_dictionaries({'op': st.just('join'), 'peer': st.integers(0, 4)}),
         st.fixed_dictionaries({'op': st.just('join'), 'peer': st.integers(0, 4)}),
-        st.fixed_dictionaries({'op': st.just('leave'), 'which': st.integers(0, 7), 'how': st.sampled_from(['eof', 'reset'])}),
+        st.fixed_dictionaries({'op': st.just('leave'), 'which': st.integers(0, 7), 'how': st.sampled_from(['eof', 'reset']),
+                               'glue': st.sampled_from(['none', 'none', 'before', 'after'])}),
         st.fixed_dictionaries({'op': st.just('pp'), 'peers': st.lists(st.integers(0, 4), min_size=1, max_size=2)}),
         st.fixed_dictionaries({'op': st.just('announce'), 'which': st.integers(0, 3), 'form': st.sampled_from([0, 0, 1, 2, 3, 4]),
                                'level': st.integers(1, 4), 'root': st.integers(0, 2)}),
@@ -208,7 +209,8 @@ def _sanitise_inner(case):
         elif kind == 'join':
             ops.append({'op': 'join', 'peer': _int(o.get('peer'), 0, 10 ** 6)})
         elif kind == 'leave':
-            ops.append({'op': 'leave', 'which': _int(o.get('which'), 0, 10 ** 6),
+            ops.append({'op': 'leave', 'glue': o.get('glue') if o.get('glue') in ('before', 'after') else 'none',
+                        'which': _int(o.get('which'), 0, 10 ** 6),
                         'how': 'reset' if o.get('how') == 'reset' else 'eof'})
         elif kind == 'pp':
             peers = [_int(p, 0, 10 ** 6) % len(TREE) for p in (o.get('peers') or [])[:2] if isinstance(p, int)]
@@ -375,6 +377,7 @@ def run_case(case) -> CaseResult:
                 adopt_outgoing()
 
             pending = []     # search ops of the current glued group
+            pending_leaves = []   # (conn, how): children that leave in the instant of the next / current request
 
             async def flush():
                 if not pending:
@@ -398,6 +401,10 @@ def run_case(case) -> CaseResult:
                     else:
                         state['parent'].link.send_msg(
                             M.DistributedServerSearchRequest.Request(3, 0x31, r['user'], r['ticket'], r['query']))
+                for k, how in pending_leaves:
+                    # a child leaves in the very instant the request is passed on ("after": right behind it)
+                    (k.link.ep.reset if how == 'reset' else k.link.ep.close)()
+                pending_leaves.clear()
                 await asyncio.sleep(QUIET)
                 # reference result sets (strings only; items are not kept)
                 for r in reqs:
@@ -436,6 +443,9 @@ def run_case(case) -> CaseResult:
                         obs['own_lookup'] += 1
                 obs['server'] += ['undecodable:' + fr.hex()[:60] for _, _, fr, _ in world.server.undecodable[und_before:]]
                 groups.append(obs)
+                for k in conns:
+                    if k.role == 'leaving-child':
+                        k.role = 'closed-child'
                 if c['asker_close']:
                     for name in sorted(peers):
                         for link in peers[name].links:
@@ -443,8 +453,21 @@ def run_case(case) -> CaseResult:
                                 link.ep.close()
                     await asyncio.sleep(0.05)
 
-            for o in c['ops']:
+            for oi, o in enumerate(c['ops']):
                 kind = o['op']
+                if kind == 'leave' and o.get('glue') in ('before', 'after'):
+                    nxt = c['ops'][oi + 1] if oi + 1 < len(c['ops']) else None
+                    kids = [k for k in conns if k.open and k.role == 'child']
+                    if kids and ((o['glue'] == 'before' and nxt is not None and nxt['op'] == 'search' and not pending) or
+                                 (o['glue'] == 'after' and pending)):
+                        k = kids[o['which'] % len(kids)]
+                        k.role = 'leaving-child'
+                        if o['glue'] == 'before':
+                            (k.link.ep.reset if o['how'] == 'reset' else k.link.ep.close)()
+                        else:
+                            pending_leaves.append((k, o['how']))
+                        notes.append('child-leaves-in-request-instant:' + o['glue'])
+                        continue
                 if kind == 'search':
                     parent = state['parent']
                     avail = ['server'] if parent is None else ['distributed', 'legacy']
@@ -572,6 +595,14 @@ def _evaluate(res, groups, notes, loop_errors):
         own_triples = {(r['user'], r['ticket'], r['query']) for r in reqs if r['user'] == OWN}
         for peer, role, new in g['links']:
             searches = [m for m in new if 'Search' in _clsname(m) or _clsname(m) == 'undecodable']
+            if role == 'leaving-child':
+                # left in the very instant of the request: may or may not have received it, never twice
+                cnt = collections.Counter(_search_fields(m) for m in searches)
+                for triple, n in cnt.items():
+                    if n > 1:
+                        res.violate(f"C14/forwarded-more-than-once:{carrier_of(triple)}",
+                                    f"leaving child {peer} received {n}x {triple}; {ctx}")
+                continue
             if role != 'child':
                 if searches:
                     m = searches[0]
